@@ -30,6 +30,9 @@ typedef struct {
 } urec_t;
 static urec_t urec[NSLOT];
 static int nslot;                 /* slots handed out so far */
+static int recycle_units;         /* config: a freed unit address is handed out
+                                     again (LIFO), as a real allocator would */
+static int freed_stack[NSLOT], nfreed_stack;
 static int n_create, n_free;      /* callback counters */
 static int fail_next_create;      /* next create_unit returns ABT_UNIT_NULL */
 static int create_failed;
@@ -138,7 +141,11 @@ static ABT_unit up_create(int p, ABT_thread thread)
     abtmc_check(nslot < NSLOT, "harness", "out of unit slots");
     if (mig_watch != ABT_THREAD_NULL && thread == mig_watch && p == 1)
         mig_at = mig_watch_started ? *mig_watch_started : 0;
-    int s = nslot++;
+    int s;
+    if (recycle_units && nfreed_stack > 0)
+        s = freed_stack[--nfreed_stack]; /* same address, new association */
+    else
+        s = nslot++;
     urec[s].state = U_LIVE;
     urec[s].thread = thread;
     urec[s].pool = p;
@@ -161,6 +168,8 @@ static void up_free_unit(int p, ABT_unit unit)
                 "free_unit of unit #%d while it is inside its pool (log: %s)", s,
                 logbuf);
     urec[s].state = U_FREED;
+    if (recycle_units)
+        freed_stack[nfreed_stack++] = s;
     n_free++;
     logev('f', s);
 }
@@ -432,6 +441,7 @@ typedef struct {
     int collide;
     int policy;
     int served_legacy; /* M_CONC: the served pool is the legacy-def pool */
+    int recycle;       /* freed unit addresses are reused */
 } cfg_t;
 
 static const cfg_t cfgs[] = {
@@ -448,7 +458,18 @@ static const cfg_t cfgs[] = {
       "pools | ES1 runs | X translates", 1, M_CONC, 0, I_MIGRATE, 1, POL_FIFO, 0 },
     { "I: mixed kinds, served legacy-def pool, pop index chosen (E)", 1, M_CONC, 0,
       I_MIXED, 1, POL_CHOOSE, 1 },
+    { "I: X creates/moves/frees | primary creates and translates; freed unit "
+      "addresses are recycled", 1, M_CONC, 0, I_EXT_MOVE, 1, POL_FIFO, 0, 1 },
+    { "I: X creates/moves/frees | primary creates into the served legacy-def pool "
+      "(pop translates unit->thread); unit addresses recycled", 1, M_CONC, 0,
+      I_EXT_MOVE, 1, POL_FIFO, 1, 1 },
     /* thorough only */
+    { "I: primary creates+frees | ES1 | X creates | second X translates (4 "
+      "threads); unit addresses recycled", 0, M_CONC, 0, I_FOUR, 1, POL_FIFO, 0, 1 },
+    { "I: primary creates+frees in served legacy-def pool | X translates; unit "
+      "addresses recycled", 0, M_CONC, 0, I_CREATE_FREE, 1, POL_LIFO, 1, 1 },
+    { "S depth4: one bucket, FIFO pop, unit addresses recycled", 0, M_SEQ, 4, 0, 1,
+      POL_FIFO, 0, 1 },
     { "S depth5: one bucket, FIFO pop", 0, M_SEQ, 5, 0, 1, POL_FIFO, 0 },
     { "S depth5: one bucket, LIFO pop", 0, M_SEQ, 5, 0, 1, POL_LIFO, 0 },
     { "S depth4: one bucket, pop index chosen (E)", 0, M_SEQ, 4, 0, 1, POL_CHOOSE,
@@ -622,6 +643,7 @@ static void scenario_seq(void)
 {
     h_init();
     arena_init(C->collide);
+    recycle_units = C->recycle;
     make_new_pool(0, C->policy);
     make_legacy_pool(1, C->policy);
     POOLS[PA] = UP[0].handle;
@@ -865,6 +887,7 @@ static void scenario_conc(void)
 {
     h_init();
     arena_init(C->collide);
+    recycle_units = C->recycle;
     served_idx = 0;
     served2_idx = 1;
     if (C->served_legacy) {
